@@ -359,6 +359,7 @@ func specLkAfter(kind, lk int) int {
 
 // writeEntryAt writes name length (tagged 0xff) and name; the value cell is not written.
 //@ contract (*mappedFile).writeEntryAt
+//@   timeout 60
 //@   requires m.mapping != nil
 //@   requires len(m.mapping.Data) < 1<<32
 //@   requires len(name) <= maxNameLen
@@ -463,6 +464,7 @@ func specMapped(m *mappedFile) bool {
 // mapping; G2: the record is written inside the reservation just won; G3: the
 // record is linked only after it was written.
 //@ contract (*mappedFile).newCounter
+//@   timeout 60
 //@   requires specMapped(m)
 //@   ensures err != nil ==> v == nil && m1 == nil
 //@   ensures m1 != nil ==> specMapped(m1) && fresh(m1)
